@@ -696,6 +696,9 @@ def _nograd_templates(name, rng):
         ex.append(("m+" + ",".join(sorted(kw)), (m3 * 3.7,), kw))
         ex.append(("b+" + ",".join(sorted(kw)), (x, x + 0.3), kw))
         ex.append(("ks+" + ",".join(sorted(kw)), (onp.sort(x), x[1] * 1.01 + 0.013), kw))
+    # complex arguments: a member of the list must be locally constant there too
+    xc = x + 1j * y
+    ex += [("uc", (xc,), {}), ("mc", (m + 0.5j * m.T,), {}), ("bc", (xc, y + 0.3j * x), {}), ("sc", (0.37 + 0.2j,), {}), ("kc", (xc, 1), {})]
     return base + ex
 
 
